@@ -1,0 +1,503 @@
+//! Verification façade. Compiled only with `--cfg kanal_verif`.
+//!
+//! `verif::core` and `verif::std` re-export the real `::core` / `::std` and
+//! shadow the handful of concurrency primitives kanal uses with thin wrappers.
+//! Each wrapper (a) calls the registered [`Runtime`] before the operation
+//! (scheduling point), (b) performs the real operation, (c) reports an
+//! [`Event`] carrying the result. Without a registered runtime, or on an OS
+//! thread the runtime does not drive, every wrapper is the real primitive.
+#![allow(missing_docs, missing_debug_implementations, clippy::all)]
+
+use ::core::sync::atomic::{AtomicPtr, Ordering};
+
+/// Which operation of `KanalPtr` ran.
+#[derive(Clone, Copy, Debug, PartialEq, Eq)]
+pub enum PtrOp {
+    Read,
+    Write,
+    Copy,
+}
+
+/// Which encoding branch of `KanalPtr` ran.
+#[derive(Clone, Copy, Debug, PartialEq, Eq)]
+pub enum Branch {
+    Zst,
+    Inline,
+    Indirect,
+}
+
+/// One observed operation, reported after it was performed.
+#[derive(Clone, Copy, Debug)]
+pub enum Event {
+    /// `AtomicBool::compare_exchange` (the channel mutex).
+    Lock { ok: bool, succ: Ordering, fail: Ordering },
+    /// `AtomicBool::store` (`val == false` is the unlock).
+    LockStore { val: bool, ord: Ordering },
+    /// `AtomicBool::load` (not used by kanal today).
+    LockLoad { val: bool, ord: Ordering },
+    /// The lock is held and the protected state is reachable.
+    Guard,
+    Load { addr: usize, ord: Ordering, val: u8 },
+    Store { addr: usize, ord: Ordering, val: u8 },
+    Cas { addr: usize, succ: Ordering, fail: Ordering, expected: u8, new: u8, ok: bool, observed: u8 },
+    Fence { ord: Ordering },
+    /// `Drop` of an `AtomicU8` wrapper.
+    Dead { addr: usize },
+    /// `UnsafeCell::get`.
+    Cell { addr: usize },
+    /// `KanalPtr::{read,write,copy}`: branch taken, address of its cell, `size_of::<T>()`.
+    Ptr { op: PtrOp, addr: usize, branch: Branch, size: usize },
+    Yield,
+    Spin,
+    Sleep { ns: u64 },
+    Par { n: usize },
+}
+
+/// The harness side. All methods are called on the OS thread that performs
+/// the operation; `point`/`event`/`park`/`current`/`thread_*`/`now`/`deadline`
+/// only on threads for which `active()` returned true.
+pub trait Runtime: Send + Sync {
+    /// Is the calling OS thread one of the runtime's logical threads?
+    fn active(&self) -> bool;
+    /// Scheduling point, called before every operation.
+    fn point(&self);
+    /// Report of a performed operation.
+    fn event(&self, e: Event);
+    /// `thread::park` of the calling logical thread (point + events inside).
+    fn park(&self);
+    /// `Thread::unpark` of logical thread `tid`; may be called from any thread.
+    fn unpark(&self, tid: usize);
+    /// `thread::current`: id of the calling logical thread.
+    fn current(&self) -> usize;
+    /// A handle of logical thread `tid` was cloned / dropped.
+    fn thread_clone(&self, tid: usize);
+    fn thread_drop(&self, tid: usize);
+    /// `Instant::now` in virtual nanoseconds.
+    fn now(&self) -> u64;
+    /// The calling thread computed a deadline (`Instant::checked_add`).
+    fn deadline(&self, ns: u64);
+    /// Value reported by `available_parallelism`; may be called from any thread.
+    fn parallelism(&self) -> usize;
+}
+
+// Thin pointer to a leaked fat pointer; null = no runtime.
+static RT: AtomicPtr<&'static dyn Runtime> = AtomicPtr::new(::core::ptr::null_mut());
+
+/// Registers the runtime (replaces a previous one).
+pub fn set_runtime(rt: &'static dyn Runtime) {
+    let slot: &'static mut &'static dyn Runtime = Box::leak(Box::new(rt));
+    RT.store(slot, Ordering::SeqCst);
+}
+
+/// Unregisters the runtime; wrappers fall through to the real primitives.
+pub fn clear_runtime() {
+    RT.store(::core::ptr::null_mut(), Ordering::SeqCst);
+}
+
+/// The registered runtime, whether or not it drives the calling thread.
+#[inline]
+pub fn registered() -> Option<&'static dyn Runtime> {
+    let p = RT.load(Ordering::Acquire);
+    if p.is_null() {
+        None
+    } else {
+        // Safety: non-null values are leaked boxes, never freed
+        Some(unsafe { *p })
+    }
+}
+
+/// The registered runtime if it drives the calling thread.
+#[inline]
+pub fn rt() -> Option<&'static dyn Runtime> {
+    match registered() {
+        Some(r) if r.active() => Some(r),
+        _ => None,
+    }
+}
+
+/// Hook: the channel lock was obtained.
+#[inline]
+pub fn guard() {
+    if let Some(r) = rt() {
+        r.point();
+        r.event(Event::Guard);
+    }
+}
+
+/// Hook: a `KanalPtr` operation chose `branch`.
+#[inline]
+pub fn ptr_event<T>(op: PtrOp, cell: &UnsafeCell<T>, branch: Branch, size: usize) {
+    if let Some(r) = rt() {
+        r.point();
+        r.event(Event::Ptr { op, addr: cell.addr(), branch, size });
+    }
+}
+
+// ---- atomics ----------------------------------------------------------------
+
+#[repr(transparent)]
+pub struct AtomicBool(::core::sync::atomic::AtomicBool);
+
+impl AtomicBool {
+    #[inline]
+    pub const fn new(v: bool) -> Self {
+        Self(::core::sync::atomic::AtomicBool::new(v))
+    }
+    #[inline]
+    pub fn load(&self, ord: Ordering) -> bool {
+        match rt() {
+            None => self.0.load(ord),
+            Some(r) => {
+                r.point();
+                let val = self.0.load(ord);
+                r.event(Event::LockLoad { val, ord });
+                val
+            }
+        }
+    }
+    #[inline]
+    pub fn store(&self, val: bool, ord: Ordering) {
+        match rt() {
+            None => self.0.store(val, ord),
+            Some(r) => {
+                r.point();
+                self.0.store(val, ord);
+                r.event(Event::LockStore { val, ord });
+            }
+        }
+    }
+    #[inline]
+    pub fn compare_exchange(
+        &self,
+        current: bool,
+        new: bool,
+        succ: Ordering,
+        fail: Ordering,
+    ) -> Result<bool, bool> {
+        match rt() {
+            None => self.0.compare_exchange(current, new, succ, fail),
+            Some(r) => {
+                r.point();
+                let res = self.0.compare_exchange(current, new, succ, fail);
+                r.event(Event::Lock { ok: res.is_ok(), succ, fail });
+                res
+            }
+        }
+    }
+}
+
+#[repr(transparent)]
+pub struct AtomicU8(::core::sync::atomic::AtomicU8);
+
+impl AtomicU8 {
+    #[inline]
+    pub const fn new(v: u8) -> Self {
+        Self(::core::sync::atomic::AtomicU8::new(v))
+    }
+    #[inline]
+    fn addr(&self) -> usize {
+        self as *const Self as usize
+    }
+    #[inline]
+    pub fn load(&self, ord: Ordering) -> u8 {
+        match rt() {
+            None => self.0.load(ord),
+            Some(r) => {
+                r.point();
+                let val = self.0.load(ord);
+                r.event(Event::Load { addr: self.addr(), ord, val });
+                val
+            }
+        }
+    }
+    #[inline]
+    pub fn store(&self, val: u8, ord: Ordering) {
+        match rt() {
+            None => self.0.store(val, ord),
+            Some(r) => {
+                r.point();
+                self.0.store(val, ord);
+                r.event(Event::Store { addr: self.addr(), ord, val });
+            }
+        }
+    }
+    #[inline]
+    pub fn compare_exchange(&self, current: u8, new: u8, succ: Ordering, fail: Ordering) -> Result<u8, u8> {
+        match rt() {
+            None => self.0.compare_exchange(current, new, succ, fail),
+            Some(r) => {
+                r.point();
+                let res = self.0.compare_exchange(current, new, succ, fail);
+                let (ok, observed) = match res {
+                    Ok(v) => (true, v),
+                    Err(v) => (false, v),
+                };
+                r.event(Event::Cas { addr: self.addr(), succ, fail, expected: current, new, ok, observed });
+                res
+            }
+        }
+    }
+}
+
+impl Drop for AtomicU8 {
+    #[inline]
+    fn drop(&mut self) {
+        if let Some(r) = rt() {
+            r.point();
+            r.event(Event::Dead { addr: self.addr() });
+        }
+    }
+}
+
+#[inline]
+pub fn fence(ord: Ordering) {
+    match rt() {
+        None => ::core::sync::atomic::fence(ord),
+        Some(r) => {
+            r.point();
+            ::core::sync::atomic::fence(ord);
+            r.event(Event::Fence { ord });
+        }
+    }
+}
+
+// ---- UnsafeCell -------------------------------------------------------------
+
+#[repr(transparent)]
+pub struct UnsafeCell<T>(::core::cell::UnsafeCell<T>);
+
+impl<T> UnsafeCell<T> {
+    #[inline]
+    pub const fn new(v: T) -> Self {
+        Self(::core::cell::UnsafeCell::new(v))
+    }
+    /// Address of the cell, no event.
+    #[inline]
+    pub fn addr(&self) -> usize {
+        self as *const Self as usize
+    }
+    #[inline]
+    pub fn get(&self) -> *mut T {
+        if let Some(r) = rt() {
+            r.point();
+            r.event(Event::Cell { addr: self.addr() });
+        }
+        self.0.get()
+    }
+    #[inline]
+    pub fn into_inner(self) -> T {
+        self.0.into_inner()
+    }
+}
+
+impl<T> From<T> for UnsafeCell<T> {
+    #[inline]
+    fn from(v: T) -> Self {
+        Self::new(v)
+    }
+}
+
+impl<T: Default> Default for UnsafeCell<T> {
+    #[inline]
+    fn default() -> Self {
+        Self::new(T::default())
+    }
+}
+
+// ---- threads ----------------------------------------------------------------
+
+enum ThreadInner {
+    Real(::std::thread::Thread),
+    Logical(usize),
+}
+
+/// Replacement of `std::thread::Thread` (only `unpark`, `Clone`, `Drop`).
+pub struct Thread(ThreadInner);
+
+impl Thread {
+    #[inline]
+    pub fn unpark(&self) {
+        match &self.0 {
+            ThreadInner::Real(t) => t.unpark(),
+            ThreadInner::Logical(tid) => {
+                if let Some(r) = registered() {
+                    r.unpark(*tid)
+                }
+            }
+        }
+    }
+}
+
+impl Clone for Thread {
+    fn clone(&self) -> Self {
+        match &self.0 {
+            ThreadInner::Real(t) => Thread(ThreadInner::Real(t.clone())),
+            ThreadInner::Logical(tid) => {
+                if let Some(r) = rt() {
+                    r.thread_clone(*tid);
+                }
+                Thread(ThreadInner::Logical(*tid))
+            }
+        }
+    }
+}
+
+impl Drop for Thread {
+    fn drop(&mut self) {
+        if let ThreadInner::Logical(tid) = &self.0 {
+            if let Some(r) = rt() {
+                r.thread_drop(*tid);
+            }
+        }
+    }
+}
+
+#[inline]
+pub fn current() -> Thread {
+    match rt() {
+        None => Thread(ThreadInner::Real(::std::thread::current())),
+        Some(r) => Thread(ThreadInner::Logical(r.current())),
+    }
+}
+
+#[inline]
+pub fn park() {
+    match rt() {
+        None => ::std::thread::park(),
+        Some(r) => r.park(),
+    }
+}
+
+#[inline]
+pub fn yield_now() {
+    match rt() {
+        None => ::std::thread::yield_now(),
+        Some(r) => {
+            r.point();
+            r.event(Event::Yield);
+        }
+    }
+}
+
+#[inline]
+pub fn sleep(dur: ::core::time::Duration) {
+    match rt() {
+        None => ::std::thread::sleep(dur),
+        Some(r) => {
+            r.point();
+            r.event(Event::Sleep { ns: dur.as_nanos().min(u64::MAX as u128) as u64 });
+        }
+    }
+}
+
+#[inline]
+pub fn spin_loop() {
+    match rt() {
+        None => ::core::hint::spin_loop(),
+        Some(r) => {
+            r.point();
+            r.event(Event::Spin);
+        }
+    }
+}
+
+/// The value comes from the registered runtime even on threads it does not
+/// drive, because kanal caches the first answer for the whole process.
+pub fn available_parallelism() -> ::std::io::Result<::core::num::NonZeroUsize> {
+    match registered() {
+        None => ::std::thread::available_parallelism(),
+        Some(r) => {
+            let active = r.active();
+            if active {
+                r.point();
+            }
+            let n = r.parallelism().max(1);
+            if active {
+                r.event(Event::Par { n });
+            }
+            Ok(::core::num::NonZeroUsize::new(n).unwrap())
+        }
+    }
+}
+
+// ---- time -------------------------------------------------------------------
+
+/// Replacement of `std::time::Instant`: real outside the runtime, virtual
+/// nanoseconds inside.
+#[derive(Clone, Copy, Debug, PartialEq, Eq, PartialOrd, Ord)]
+pub enum Instant {
+    Real(::std::time::Instant),
+    Virtual(u64),
+}
+
+impl Instant {
+    #[inline]
+    pub fn now() -> Instant {
+        match rt() {
+            None => Instant::Real(::std::time::Instant::now()),
+            Some(r) => Instant::Virtual(r.now()),
+        }
+    }
+    #[inline]
+    pub fn checked_add(&self, d: ::core::time::Duration) -> Option<Instant> {
+        match self {
+            Instant::Real(i) => i.checked_add(d).map(Instant::Real),
+            Instant::Virtual(ns) => {
+                let add = u64::try_from(d.as_nanos()).ok()?;
+                let dl = ns.checked_add(add)?;
+                if let Some(r) = rt() {
+                    r.deadline(dl);
+                }
+                Some(Instant::Virtual(dl))
+            }
+        }
+    }
+}
+
+// ---- façade modules ---------------------------------------------------------
+
+pub mod core {
+    pub use ::core::*;
+    pub mod sync {
+        pub use ::core::sync::*;
+        pub mod atomic {
+            pub use crate::verif::{fence, AtomicBool, AtomicU8};
+            pub use ::core::sync::atomic::*;
+        }
+    }
+    pub mod cell {
+        pub use crate::verif::UnsafeCell;
+        pub use ::core::cell::*;
+    }
+    pub mod hint {
+        pub use crate::verif::spin_loop;
+        pub use ::core::hint::*;
+    }
+}
+
+pub mod std {
+    pub use ::std::*;
+    pub mod thread {
+        pub use crate::verif::{available_parallelism, current, park, sleep, yield_now, Thread};
+        pub use ::std::thread::*;
+    }
+    pub mod hint {
+        pub use crate::verif::spin_loop;
+        pub use ::std::hint::*;
+    }
+    pub mod time {
+        pub use crate::verif::Instant;
+        pub use ::std::time::*;
+    }
+    pub mod sync {
+        pub use ::std::sync::*;
+        pub mod atomic {
+            pub use crate::verif::{fence, AtomicBool, AtomicU8};
+            pub use ::std::sync::atomic::*;
+        }
+    }
+    pub mod cell {
+        pub use crate::verif::UnsafeCell;
+        pub use ::std::cell::*;
+    }
+}
